@@ -156,23 +156,23 @@ def walk(nodes, segs, i, params, rev):
 _CACHE = {}
 
 
-def make_router(history, compile_each=False, find_before_last=False):
+def make_router(history, compile_each=False, find_before_last=False, find_before_each=False):
     """Concrete set-up, done once per worker process and outside CrossHair's tracing."""
-    key = (tuple(history), compile_each, find_before_last)
+    key = (tuple(history), compile_each, find_before_last, find_before_each)
     if key not in _CACHE:
         with notrace():
-            r, acc, rej = _make_router(history, compile_each, find_before_last)
+            r, acc, rej = _make_router(history, compile_each, find_before_last, find_before_each)
             r.find('/')  # what the first request does: compile the finder (raises if the tree is corrupt)
             _CACHE[key] = (r, acc, rej, build_trie(acc))
     return _CACHE[key]
 
 
-def _make_router(history, compile_each=False, find_before_last=False):
+def _make_router(history, compile_each=False, find_before_last=False, find_before_each=False):
     """history: list of templates; -> (router, accepted list, rejected list)."""
     r = CompiledRouter()
     acc, rej = [], []
     for k, t in enumerate(history):
-        if find_before_last and k == len(history) - 1:
+        if (find_before_last and k == len(history) - 1) or (find_before_each and k > 0):
             r.find('/')  # forces a compile: the next add must invalidate the stale finder
         try:
             if compile_each:
@@ -197,7 +197,8 @@ def route_case(templates, segs, variant):
         if '/' in s:
             return 2
     path = '/' + '/'.join(segs)
-    router, acc, rej, trie = make_router(templates, compile_each=(variant == 1), find_before_last=(variant == 2))
+    router, acc, rej, trie = make_router(templates, compile_each=(variant == 1), find_before_last=(variant == 2),
+                                         find_before_each=(variant == 3))
     parts = path.lstrip('/').split('/')
     e1 = walk(trie, parts, 0, {}, False)
     e2 = walk(trie, parts, 0, {}, True)
@@ -218,7 +219,8 @@ def history_case(clean, rejected, pos, later, segs, variant):
     path = '/' + '/'.join(segs)
     hist = list(clean[:pos]) + [rejected] + list(clean[pos:]) + list(later)
     base = list(clean) + list(later)
-    r1, acc1, rej1, _t1 = make_router(hist, compile_each=(variant == 1), find_before_last=(variant == 2))
+    r1, acc1, rej1, _t1 = make_router(hist, compile_each=(variant == 1), find_before_last=(variant == 2),
+                                      find_before_each=(variant == 3))
     r0, acc0, rej0, trie = make_router(base)
     if rejected in acc1:
         # the template is acceptable in this context: not a rejection scenario
@@ -253,6 +255,8 @@ ROUTE_SETS = [
     ['/{x}', '/{x}/{y}', '/{x}/{y}/{z}'],
     ['/a', '/a/a', '/a/a/a', '/{x}/a/{y}'],
     ['/{i:int(1)}{r}', '/{i:int(1)}{r}/{j:int}', '/a{q}'],
+    ['/a/{x}/c', '/a/b/{y}', '/a/{x}', '/a'],                 # prefixes added after their extensions: the last adds only fill interior nodes
+    ['/{a:int}-{b:int}/{c:int}', '/v/{m:int}/{lo:int}..{hi}', '/{a:int}-{b:int}'],    # several converters in one segment, then a converted simple field
 ]
 
 # templates that must be rejected in the given context (context = ROUTE_SETS[ci]); each with later legal adds
@@ -293,7 +297,7 @@ def h(%s) -> int:
     return {'name': 'routes%02d_d%d_%s_v%d' % (si, len(lens), ''.join(map(str, lens)), variant), 'fn': 'h', 'src': src,
             'timeout': timeout,
             'bounds': 'route set %r; path of %d symbolic segments with lengths <= %s (any characters except "/"); build variant %s' % (
-                ROUTE_SETS[si], len(lens), list(lens), ['plain', 'compile=True on every add', 'find() before the last add'][variant])}
+                ROUTE_SETS[si], len(lens), list(lens), ['plain', 'compile=True on every add', 'find() before the last add', 'find() between all adds'][variant])}
 
 
 def shaped_case(templates, pieces, fields, variant):
@@ -390,11 +394,13 @@ def partitions(tier, seed):
         for d in (1, 2, 3):
             if d > maxd and not (has_path and d == maxd + 1):
                 continue
-            if q and d == 1 and si not in (0, 2, 5, 13):
+            if q and d == 1 and si not in (0, 2, 5, 13, 14):
                 continue
-            variants = (0,) if q else (0, 1, 2)
+            variants = (0,) if q else (0, 1, 2, 3)
             if q and si in (0, 4, 7):
                 variants = (0, 2) if d == maxd else (0,)
+            if q and si == 14:
+                variants = (3,)
             for v in variants:
                 P.append(_route_part(si, depth_lens[d], v, 120 if q else 900))
     return P
